@@ -2700,7 +2700,9 @@ func (s *Server) serveConnCounted(c net.Conn, countConcurrency bool) error {
 			s.Handler(ctx)
 		}
 
-		timeoutResponse = ctx.timeoutResponse
+		// Under its lock: a handler that timed out may call TimeoutError*
+		// itself at any moment.
+		timeoutResponse = ctx.LastTimeoutErrorResponse()
 		if timeoutResponse != nil {
 			// Acquire a new ctx because the old one will still be in use by the timeout out handler.
 			ctx = s.acquireCtx(c)
@@ -2945,11 +2947,14 @@ func (c *hijackConn) Close() error {
 //
 // This function is intended for custom server implementations.
 func (ctx *RequestCtx) LastTimeoutErrorResponse() *Response {
-	return ctx.timeoutResponse
+	ctx.timeoutLock.Lock()
+	resp := ctx.timeoutResponse
+	ctx.timeoutLock.Unlock()
+	return resp
 }
 
 func writeResponse(ctx *RequestCtx, w *bufio.Writer) error {
-	if ctx.timeoutResponse != nil {
+	if ctx.LastTimeoutErrorResponse() != nil {
 		return errors.New("cannot write timed out response")
 	}
 	err := ctx.Response.Write(w)
@@ -3186,7 +3191,7 @@ func (fa *fakeAddrer) Close() error {
 }
 
 func (s *Server) releaseCtx(ctx *RequestCtx) {
-	if ctx.timeoutResponse != nil {
+	if ctx.LastTimeoutErrorResponse() != nil {
 		// developer sanity-check
 		panic("BUG: cannot release timed out RequestCtx")
 	}
